@@ -62,8 +62,15 @@ def make_tree(rng):
     return files, faults
 
 
+def regen_clisrc():
+    from translate import clisrc
+    clisrc.generate()           # CmGen/CliSrc.lean: path handling, target ratio, dispatch literals of cli/main.py as they read now (CmProps/C18src.lean)
+
+
 def check(run):
-    run.proof = proof_status("C18")
+    run.proof = proof_status("C18", regenerate=regen_clisrc)
+    from translate import clisrc as _cs
+    run.extra["source_translation"] = _cs.summary()
     q = run.quick()
     repo_import()
     n = 45 if q else 1200
